@@ -8,6 +8,8 @@ def sh(cmd, cwd=None, timeout=1800):
     return p.returncode, (p.stdout + p.stderr)
 pid, x = sys.argv[1], sys.argv[2]
 src = f"/tmp/wt/out/{pid}/{x}"
+if not os.path.isdir(src):
+    src = f"/verif/seeded/{pid}-{x}"  # re-confirmation from the kept copy
 patch = sys.argv[3] if len(sys.argv) > 3 and not sys.argv[3].startswith("checks=") else f"{src}/patch.diff"
 checks = [pid]
 for a in sys.argv[3:]:
@@ -59,9 +61,10 @@ finally:
     sh(f"git -C /repo worktree remove --force {sw}"); shutil.rmtree(sw, ignore_errors=True)
     dst = f"/verif/seeded/{pid}-{x}"
     os.makedirs(dst, exist_ok=True)
-    shutil.copy(patch, dst + "/patch.diff")
-    for f in glob.glob(src + "/**/*_test.go", recursive=True): shutil.copy(f, dst + "/" + os.path.basename(f))
-    if os.path.exists(src + "/notes.md"): shutil.copy(src + "/notes.md", dst + "/notes.md")
+    if os.path.abspath(src) != os.path.abspath(dst):
+        shutil.copy(patch, dst + "/patch.diff")
+        for f in glob.glob(src + "/**/*_test.go", recursive=True): shutil.copy(f, dst + "/" + os.path.basename(f))
+        if os.path.exists(src + "/notes.md"): shutil.copy(src + "/notes.md", dst + "/notes.md")
     notes = open(src + "/notes.md").read() if os.path.exists(src + "/notes.md") else ""
     m = re.search(r"(?is)(needs|trigger|manifest)[^\n]*\n(.{0,600})", notes)
     meta["needs_to_manifest"] = (m.group(0).strip()[:600] if m else "see notes.md")
